@@ -151,8 +151,12 @@ def run_history(mods, d, tname, schema, hist, cache_remote=True, caches="default
         results.append(r)
         if inst != keep:
             return "instance modified by %s" % (op,)
-        if v.resolver.resolution_scope != scope0:
-            return "resolution scope is %r after %s (was %r)" % (v.resolver.resolution_scope, op, scope0)
+        try:
+            now = v.resolver.resolution_scope
+        except IndexError:
+            return "the resolver's scope stack is empty after %s" % (op,)
+        if now != scope0:
+            return "resolution scope is %r after %s (was %r)" % (now, op, scope0)
     if schema != s0:
         return "schema modified"
     for k, val in store0.items():
